@@ -32,7 +32,7 @@ NOT_APPLICABLE = {}
 PROPS = {
     "C03": dict(level="exploration", engine="benum",
         technique="bounded-exhaustive enumeration of all tables (<=3/4 routes) x requests x matchers against a reference selection",
-        level_text="Every table of up to 3 (thorough: 4) routes over 10 host patterns (with default ports, a wildcard that stands for nothing) x 6 paths, every request of 10 hosts x TLS x 9 paths, 3 matchers, glob matching on/off, is looked up in the real Table.Lookup / LookupHost and compared with a brute-force reference of the stated precedence; the enumeration is complete for that alphabet (exhaustive:true). Plus hand-built shapes the alphabet cannot hold: IPv6 literal hosts and 11-17 wildcard patterns matching one host.",
+        level_text="Every table of up to 3 (thorough: 4) routes over 10 host patterns (with default ports, a wildcard that stands for nothing) x 6 paths, every request of 10 hosts x TLS x 9 paths, 3 matchers, glob matching on/off, is looked up in the real Table.Lookup / LookupHost and compared with a brute-force reference of the stated precedence; the enumeration is complete for that alphabet (exhaustive:true). Plus hand-built shapes the alphabet cannot hold: IPv6 literal hosts and 11-17 wildcard patterns matching one host. Round 8: (grpc) the gRPC interceptor's lookup under every proxy.matcher, glob setting and dsthost against a reference written from the statement; host patterns without a star.",
         level_note="Small-scope: host patterns are exact names or a leading '*' wildcard; paths literal (plus trailing-* for the glob matcher). Host patterns without a star ({a,b}, [ab], ?) are covered one at a time next to exact hosts; their order among themselves is outside the alphabet.",
         units=[
         unit("c03", "route", ROUTE_COMMON + ["route/c03_test.go"], "^TestVerifC03"),
@@ -59,7 +59,7 @@ PROPS = {
     ], layers={"quick": ["c05-commands", "c05-api"], "thorough": ["c05-commands", "c05-api"]}),
     "C06": dict(level="model_checking", engine="vsched",
         technique="stateless model checking: controlled scheduler + preemption-bounded DFS over the real lookup path; separate free-running -race pass",
-        level_text="Every interleaving (up to the preemption bound reported in the evidence; statement-level scheduling points in picker.go, glob_cache.go, target.go, table.go) of 2-3 concurrent lookups over redirect routes, equal and weighted round-robin routes, a glob cache at its fill and eviction boundaries, and lookups concurrent with SetTable, is executed on the real code and checked: own redirect Location, exact round-robin shares, cache within size and never failing, decisions independent of other requests. The same bodies run free under the race detector.",
+        level_text="Every interleaving (up to the preemption bound reported in the evidence; statement-level scheduling points in picker.go, glob_cache.go, target.go, table.go) of 2-3 concurrent lookups over redirect routes, equal and weighted round-robin routes, a glob cache at its fill and eviction boundaries, and lookups concurrent with SetTable, is executed on the real code and checked: own redirect Location, exact round-robin shares, cache within size and never failing, decisions independent of other requests. The same bodies run free under the race detector. Round 8: (cursor) exact round-robin share across counter boundaries 2^8..2^33.",
         level_note="Sequentially consistent interleavings at statement granularity of the four rewritten files; weaker memory orderings and races inside other packages are only covered by the -race pass (a monitor over a sample of schedules).",
         units=[route_sched("c06", "^TestVerifC06Sched", shards={"quick": 1, "thorough": 16}),
                unit("c06-cursor", "route", ROUTE_COMMON + ["route/c04_test.go"], "^TestVerifC06Cursor"),
@@ -141,7 +141,7 @@ PROPS = {
     ], layers={"quick": ["c10-sni", "c10-segments"], "thorough": ["c10-sni", "c10-segments"]}),
     "C11": dict(level="model_checking", engine="vsched",
         technique="bounded-exhaustive certificate-set x server-name selection (incl. real handshakes) + explicit enumeration of source histories through the real watch loop + stateless model checking of set replacement vs handshakes",
-        level_text="(selection) every ordered list of up to 3 of 11 generated leafs x 18 server names x strict/non-strict against the stated exact -> wildcard -> first/none rule, through getCertificate and real in-memory handshakes. (histories) every history up to length 4 (thorough 5) of 7 kinds of source answers through the real cert.watch with virtual sleep: published sets, never publishing bad material, no spinning. (schedules) every interleaving up to the reported bound of a publisher, the store's applier goroutine and 1-2 handshake threads; and of 2-3 handshakes that make the vault-pki source issue certificates (fake Vault), incl. a renewal under a handshake.",
+        level_text="(selection) every ordered list of up to 3 of 11 generated leafs x 18 server names x strict/non-strict against the stated exact -> wildcard -> first/none rule, through getCertificate and real in-memory handshakes. (histories) every history up to length 4 (thorough 5) of 7 kinds of source answers through the real cert.watch with virtual sleep: published sets, never publishing bad material, no spinning. (schedules) every interleaving up to the reported bound of a publisher, the store's applier goroutine and 1-2 handshake threads; and of 2-3 handshakes that make the vault-pki source issue certificates (fake Vault), incl. a renewal under a handshake. Round 8: (pathsource) the real PathSource.Certificates() over every history <=3 of a directory switched by re-pointing a link or rewritten in place.",
         level_note="Wildcards are single-label (*.foo.com). The vault/consul/http sources share the watch loop; their transport is not exercised. When two certificates name the same host the later one is expected to win (that is what an index built in order does); first-wins would be flagged although the statement does not order them - no such set is in the alphabet except via the hand-picked pool where names are distinct.",
         units=[
         unit("c11-select", "cert", ["cert/c11_test.go"], "^TestVerifC11(Select|Publish)", engines=SCHED + ["vhook"]),
@@ -178,7 +178,7 @@ PROPS = {
     ], layers={"quick": ["c14-registrations", "c14-multi", "c14-watch", "c14-sched"], "thorough": ["c14-registrations", "c14-multi", "c14-watch", "c14-sched"]}),
     "C01": dict(level="model_checking", engine="xstate",
         technique="explicit-state BFS over registry histories through the real consul watchers + watchBackend against a fake Consul HTTP API; bounded-exhaustive check sequences for the health rule",
-        level_text="(health rule) every sequence of up to 3 (thorough 4) health checks over 28 check shapes x tagged/untagged x strict/non-strict x 4 accepted-status lists through the real checksWithTagPrefix + passingServices against an independent predicate. (configuration step) every set of 1..3 instances of one service over dotted node names and service ids x every pass/fail assignment through the real makeConfig against a fake catalog. (pipeline) breadth-first exploration of registry histories (depth 2 quick, 3 thorough, state de-duplicated) through the real backend, watchers, watchBackend and table installation, with causal quiescence detection; every state compares the active table with the reference.",
+        level_text="(health rule) every sequence of up to 3 (thorough 4) health checks over 28 check shapes x tagged/untagged x strict/non-strict x 4 accepted-status lists through the real checksWithTagPrefix + passingServices against an independent predicate. (configuration step) every set of 1..3 instances of one service over dotted node names and service ids x every pass/fail assignment through the real makeConfig against a fake catalog. (pipeline) breadth-first exploration of registry histories (depth 2 quick, 3 thorough, state de-duplicated) through the real backend, watchers, watchBackend and table installation, with causal quiescence detection; every state compares the active table with the reference. Round 8: (watch) catalog histories incl. a round whose catalog lookup fails through the real ServiceMonitor.Watch; (config) two services sharing an endpoint built into a table.",
         level_note="Blocking-query mode (pollinterval=0). The fake Consul serves consistent snapshots (index monotonic, blocks until change); stale reads and partial failures of Consul are not modelled. State merging key = (registry model, last good table); hidden loop state (svccfg, mancfg, lastTable, watcher indexes) is a function of those after quiescence, and each replay first drives the pipeline back to the initial state and checks the table (differential oracle).",
         units=[
         unit("c01-health", "registry/consul", ["consul/c14_test.go", "consul/c14_watch_test.go", "consul/c01_test.go", "consul/c01_cfg_test.go"], "^TestVerifC01"),
@@ -186,7 +186,7 @@ PROPS = {
     ], layers={"quick": ["c01-health", "c01-config", "c01-watch", "c01-pipeline"], "thorough": ["c01-health", "c01-config", "c01-watch", "c01-pipeline"]}),
     "C09": dict(level="model_checking", engine="vsched",
         technique="stateless model checking: controlled scheduler over the real ServeTCP of the three TCP proxies (and the websocket relay) with in-memory connections; scenario product x all interleavings up to a preemption bound",
-        level_text="For every scenario of the product listener kind x PROXY protocol x client segmentation x close order x reply timing, every interleaving (preemption bound 1 quick, 2 thorough) of client, upstream, ServeTCP and its two copier goroutines is executed on the real proxy code over in-memory connections and the delivered byte streams are checked for prefix/exactly-once/in-order delivery and for completeness towards whichever side finished first.",
+        level_text="For every scenario of the product listener kind x PROXY protocol x client segmentation x close order x reply timing, every interleaving (preemption bound 1 quick, 2 thorough) of client, upstream, ServeTCP and its two copier goroutines is executed on the real proxy code over in-memory connections and the delivered byte streams are checked for prefix/exactly-once/in-order delivery and for completeness towards whichever side finished first. Round 8: (accept) every interleaving up to the bound of tcp.Server.Serve with 2-3 connections in the accept queue: one handler per accepted connection.",
         level_note="Kernel TCP behaviour (RST on close with unread data, Nagle, buffers) is not modelled: a write towards a peer that already closed succeeds and is discarded. TLS-wrapped listeners are byte-transparent above crypto/tls and not re-explored.",
         units=[
         unit("c09", "proxy/tcp", TCP_COMMON + ["tcp/c10_test.go", "tcp/c09_test.go"], "^TestVerifC09Tunnels", engines=SCHED + ["vhook", "vnet"], sched_env={"GOMAXPROCS": "1"}, shards={"quick": 8, "thorough": 16},
